@@ -188,6 +188,29 @@ seed("C15", "envelope-raises", "background raised immediately", ["C15.A5"],
 seed("C15", "numpixels-whole-frame", "mean divided by the whole frame's pixel count", ["C15.A2"],
      (MO, "d.numPixels = float64((d.rowStop - d.start) * (d.columnStop - d.start))", "d.numPixels = float64(camera.ResY() * camera.ResX())"))
 
+FL = "motion/frameloop.go"
+# ---- C19
+seed("C19", "copyrecent-no-wrap", "previous index without + size", ["C19.Q6", "C19.Q2"],
+     (FL, "previousIndex := (fl.currentIndex - 1 + fl.size) % fl.size", "previousIndex := (fl.currentIndex - 1) % fl.size"))
+seed("C19", "history-length-off-by-one", "history length without + 1", ["C19.Q4"],
+     (FL, "historyLength := (fl.currentIndex-fl.oldest+fl.size)%fl.size + 1", "historyLength := (fl.currentIndex - fl.oldest + fl.size) % fl.size"))
+seed("C19", "mark-never-expires", "mark not cleared when overwritten", ["C19.Q3"],
+     (FL, "\tif fl.currentIndex == fl.oldest {\n\t\tfl.oldest = NO_OLDEST_SET\n\t}\n", ""))
+seed("C19", "reset-keeps-wrapped", "Reset leaves bufferFull set", ["C19.Q3"],
+     (FL, "\tfl.oldest = 0\n\tfl.bufferFull = false\n", "\tfl.oldest = 0\n"))
+seed("C19", "oldest-is-current", "Oldest returns the current slot when unmarked", ["C19.Q6"],
+     (FL, "return fl.frames[fl.nextIndexAfter(fl.currentIndex)]", "return fl.frames[fl.currentIndex]"))
+seed("C19", "rotation-wrong-offset", "second copy segment placed at the wrong offset", ["C19.Q5"],
+     (FL, "copy(fl.orderedFrames[fl.size-nextIndex:], fl.frames[:nextIndex])", "copy(fl.orderedFrames[nextIndex:], fl.frames[:nextIndex])"))
+seed("C19", "copyrecent-unlocked", "CopyRecent without the lock", ["C19.Q6"],
+     (FL, "func (fl *FrameLoop) CopyRecent() *cptvframe.Frame {\n\tfl.mu.Lock()\n\tdefer fl.mu.Unlock()\n", "func (fl *FrameLoop) CopyRecent() *cptvframe.Frame {\n"))
+seed("C19", "copyrecent-aliases", "CopyRecent returns the slot itself", ["C19.Q6"],
+     (FL, "return fl.frames[previousIndex].CreateCopy()", "return fl.frames[previousIndex]"))
+seed("C19", "unwrapped-returns-all", "not-yet-wrapped history includes unwritten slots", ["C19.Q5"],
+     (FL, "\t\treturn fl.orderedFrames[:nextIndex]", "\t\treturn fl.orderedFrames"))
+seed("C19", "mark-next-slot", "SetAsOldest marks the following slot", ["C19.Q3"],
+     (FL, "\tfl.oldest = fl.currentIndex\n", "\tfl.oldest = fl.nextIndexAfter(fl.currentIndex)\n"))
+
 here = os.path.dirname(os.path.abspath(__file__))
 for pid, name, d in S:
     os.makedirs(os.path.join(here, pid), exist_ok=True)
